@@ -146,6 +146,19 @@ class Profile:
     def probes(self, c, P):
         pass
 
+    def skipped(self, c):
+        """A step that was executed but is not judged at all (resource exhaustion on a very deep
+        tree): whatever the profile remembers across steps must not trust the world any more."""
+        st = c.state
+        if "pairs" in st:
+            st["pairs"] = []
+        if "memo" in st:
+            st["memo"].clear()
+            st["epoch"] = st.get("epoch", 0) + 1
+        if "last_prune" in st:
+            st["last_prune"] = None
+            st["epoch"] = st.get("epoch", 0) + 1
+
     def hang_is_judged(self, pre, R, op, kobj):
         try:
             return kobj.spec(pre, R, op, None).judged
